@@ -1,5 +1,6 @@
-(* C14 — which fields each request of jrpc2.Client fills, keyed by the accessor
-   expression that dig.logWithCtx.get evaluates (Gen/GetFields.v).  Written by
+(* C14 — which fields each request of jrpc2.Client fills, keyed by the struct field
+   (Declaring.Field) that dig.logWithCtx.get returns (Gen/GetFields.v).  This hand-written table is now only the
+   cross-check of the table derived from Gen/FetchFills.v ([provides_of]).  Written by
    hand from the JSON tags of eth.Header / eth.Tx (what eth_getBlockByNumber
    decodes) and from the assignments in receipts(), logs(), traces(); tied to
    the code by the correspondence run of C14 (observed supplied-matrix).
@@ -15,35 +16,35 @@ Open Scope string_scope.
 
 Definition provides_tbl : list (string * list fetch) := [
   (* eth.Header: number / hash / timestamp; receipts, logs and traces write the block hash they name *)
-  ("b.Num()",  [GNumbers; GHeaders; GBlocks; GReceipts; GLogs; GTraces]);
-  ("b.Hash()", [GHeaders; GBlocks; GReceipts; GLogs; GTraces]);
-  ("b.Time",   [GHeaders; GBlocks]);
+  ("Header.Number", [GNumbers; GHeaders; GBlocks]);
+  ("Header.Hash", [GHeaders; GBlocks; GReceipts; GLogs; GTraces]);
+  ("Header.Time", [GHeaders; GBlocks]);
   (* eth.Tx from the full block; receipts() also writes hash, type, from, to; logs()/traces() hash and index *)
-  ("t.Hash()", [GBlocks; GReceipts; GLogs; GTraces]);
-  ("t.Idx",    [GBlocks; GReceipts; GLogs; GTraces]);
-  ("t.Signer()", [GBlocks; GReceipts]);
-  ("t.To",     [GBlocks; GReceipts]);
-  ("t.Type",   [GBlocks; GReceipts]);
-  ("t.Value",  [GBlocks]);
-  ("t.Data",   [GBlocks]);
-  ("t.Nonce",  [GBlocks]);
-  ("t.GasPrice", [GBlocks]);
-  ("t.MaxPriorityFeePerGas", [GBlocks]);
-  ("t.MaxFeePerGas", [GBlocks]);
+  ("Tx.PrecompHash", [GBlocks; GReceipts; GLogs; GTraces]);
+  ("Tx.Idx", [GBlocks; GReceipts; GLogs; GTraces]);
+  ("Tx.From", [GBlocks; GReceipts]);
+  ("Tx.To", [GBlocks; GReceipts]);
+  ("Tx.Type", [GBlocks; GReceipts]);
+  ("Tx.Value", [GBlocks]);
+  ("Tx.Data", [GBlocks]);
+  ("Tx.Nonce", [GBlocks]);
+  ("Tx.GasPrice", [GBlocks]);
+  ("Tx.MaxPriorityFeePerGas", [GBlocks]);
+  ("Tx.MaxFeePerGas", [GBlocks]);
   (* eth.Receipt (embedded in Tx): only receipts() *)
-  ("t.Receipt.Status", [GReceipts]);
-  ("t.GasUsed", [GReceipts]);
-  ("t.EffectiveGasPrice", [GReceipts]);
-  ("t.ContractAddress", [GReceipts]);
+  ("Receipt.Status", [GReceipts]);
+  ("Receipt.GasUsed", [GReceipts]);
+  ("Receipt.EffectiveGasPrice", [GReceipts]);
+  ("Receipt.ContractAddress", [GReceipts]);
   (* logs: from the receipts or from eth_getLogs *)
-  ("l.Idx",     [GReceipts; GLogs]);
-  ("l.Address", [GReceipts; GLogs]);
+  ("Log.Idx", [GReceipts; GLogs]);
+  ("Log.Address", [GReceipts; GLogs]);
   (* trace actions *)
-  ("ta.CallType", [GTraces]);
-  ("ta.Idx",   [GTraces]);
-  ("ta.From",  [GTraces]);
-  ("ta.To",    [GTraces]);
-  ("ta.Value", [GTraces])
+  ("TraceAction.CallType", [GTraces]);
+  ("TraceAction.Idx", [GTraces]);
+  ("TraceAction.From", [GTraces]);
+  ("TraceAction.To", [GTraces]);
+  ("TraceAction.Value", [GTraces])
 ].
 
 Fixpoint assoc (k : string) (l : list (string * list fetch)) : list fetch :=
@@ -52,6 +53,10 @@ Fixpoint assoc (k : string) (l : list (string * list fetch)) : list fetch :=
   | (k', v) :: r => if String.eqb k k' then v else assoc k r
   end.
 Definition provides (acc : string) : list fetch := assoc acc provides_tbl.
+
+(* the relation derived from Gen/FetchFills.v: a request supplies a struct field iff it fills it *)
+Definition provides_of (fills : list (fetch * list string)) (acc : string) : list fetch :=
+  map fst (filter (fun ff => existsb (String.eqb acc) (snd ff)) fills).
 
 Definition has_fetch (g : fetch) (fs : list fetch) : bool := existsb (fetch_eqb g) fs.
 
